@@ -162,6 +162,8 @@ class VhdxSuite(ReaderSuite):
 
 SUITES = {"vhdx": VhdxSuite()}
 
-from harness.readers import under_O, under_debug  # noqa: E402
+from harness.readers import under_O, under_debug, under_bufsize  # noqa: E402
 SUITES["vhdx_pyO"] = under_O(SUITES["vhdx"])
 SUITES["vhdx_dbg"] = under_debug(SUITES["vhdx"])
+SUITES["vhdx_buf12288"] = under_bufsize(SUITES["vhdx"], 12288)
+SUITES["vhdx_buf1536"] = under_bufsize(SUITES["vhdx"], 1536, n=4)
